@@ -125,7 +125,7 @@ RLExpect(c) ==
     [] op = "rl_reduce" -> RLReduce(c[2], c[3], c[4])
     [] op = "rl_concat" -> RLConcat(c[2])
     \* the sum of a 64-bit array whose values are given as limbs: exact modulo 2^64, in the array's own dtype
-    [] op = "rl_wsum" -> IF c[3] = <<>> \/ c[2] \notin {"i8", "u8"} THEN R_UNSPEC ELSE <<"scalar", c[2], WideSum(c[3])>>
+    [] op = "rl_wsum" -> IF c[3] = <<>> \/ c[2] \notin {"i8", "u8"} \/ ~WideFits(c[3], c[2]) THEN R_UNSPEC ELSE <<"scalar", c[2], WideSum(c[3])>>
     \* np.histogram(rla) = np.histogram(decoded array): the property defines the expectation as numpy's own answer on the
     \* decoded array, so the harness evaluates both sides with numpy and the specification demands agreement
     [] op = "rl_hist" -> IF c[3] = <<>> THEN R_UNSPEC ELSE <<"bool", 1>>
